@@ -235,6 +235,8 @@ def install(w):
         from pyvc.sym import VAtom
         from pyvc.codec import VOpt
         s, n = pair
+        if not hasattr(s, "t") or not hasattr(n, "t") or s.t.sort() != refs.RefS or n.t.sort() != refs.RefS:
+            raise Unsupported(f"named_type_of({s!r}, {n!r}): not a schema and a type node")
         known = NAMED_KNOWN(s.t, n.t)
         if isinstance(result, VAtom):
             return VBool(z3.Not(known))
